@@ -148,12 +148,12 @@ pub fn append_rule(rule: Arc<Rule>) -> bool {
     );
     drop(rule_map);
     if !new_tcs_of_res.is_empty() {
+        // the rebuilt list carries over the controllers of the rules that were already
+        // active (they were taken out of the old list) plus the new one: it replaces the old list
         CONTROLLER_MAP
             .write()
             .unwrap()
-            .entry(rule.resource.clone())
-            .or_default()
-            .push(Arc::clone(&new_tcs_of_res[0]));
+            .insert(rule.resource.clone(), new_tcs_of_res);
     }
     true
 }
